@@ -13,9 +13,10 @@ On break: harness `oracle` evaluates the property directly on the real code with
 """
 import os
 
-THEOREMS = ["IstioModel.C10.Theorems", "IstioModel.C10.Chains", "IstioModel.C10.GenTie", "IstioModel.C10.AmbientTheorems"]
+THEOREMS = ["IstioModel.C10.Theorems", "IstioModel.C10.Chains", "IstioModel.C10.InboundTheorems", "IstioModel.C10.GenTie",
+            "IstioModel.C10.AmbientTheorems"]
 GENERATED = os.path.join(os.path.dirname(os.path.dirname(os.path.abspath(__file__))), "lean", "IstioModel", "Generated", "C10Chains.lean")
-STREAMS = ("compose", "ambient")
+STREAMS = ("compose", "ambient", "inbound")
 
 
 def case_of(lines, i):
@@ -101,7 +102,7 @@ def run(ctx):
     if rc != 0 or not os.path.exists(GENERATED):
         ctx.tie_broken("harness-table:chains", "the harness could not evaluate getFilterChainMatchOptions over its domain:\n" + log)
         return
-    ctx.exhaustive = {"domain": "MutualTLSMode (4) x ListenerProtocol (4) = 16 rows of the inbound filter-chain table",
+    ctx.extra["generated_tables"] = {"domain": "MutualTLSMode (4) x ListenerProtocol (4) = 16 rows of the inbound filter-chain table",
                       "rows": 16, "tie": "IstioModel.C10.chains_model_eq_impl (decide)"}
     proved = ctx.lean_prove(THEOREMS)
     # the filter-chain clauses evaluated directly on the real table, independent of the model
@@ -122,9 +123,9 @@ def run(ctx):
                                "generated_table": open(GENERATED).read()}, True)
     if not ctx.build_drv():
         return
-    n = ctx.n(20000, 400000)
+    sizes = {"compose": ctx.n(20000, 400000), "ambient": ctx.n(20000, 400000), "inbound": ctx.n(500, 12000)}
     for stream in STREAMS:
-        ctx.diff_stream(stream, n, oracle=oracle, nontrivial=nontrivial)
+        ctx.diff_stream(stream, sizes[stream], oracle=oracle, nontrivial=nontrivial)
     # second line: the oracle on every corpus and generated case, independent of the model
     for stream in STREAMS:
         files = []
